@@ -657,6 +657,35 @@ func (env *SpecEnv) fieldByIndex(x SpecVal, i int) (SpecVal, error) {
 // addrOf evaluates an lvalue expression to (address, type).
 func (env *SpecEnv) addrOf(e *Expr) (Term, types.Type, error) {
 	vc := env.vc
+	// address of a package-level variable: &name or &pkg.Name
+	globalVar := func(obj types.Object) (Term, types.Type, bool) {
+		if v, ok := obj.(*types.Var); ok && v.Pkg() != nil && v.Parent() == v.Pkg().Scope() {
+			return vc.globalAddr(v), v.Type(), true
+		}
+		return Term{}, nil, false
+	}
+	if e.Kind == EIdent && env.pkg != nil {
+		if _, isVar := env.vars[e.Name]; !isVar {
+			if obj := env.pkg.Scope().Lookup(e.Name); obj != nil {
+				if a, t, ok := globalVar(obj); ok {
+					return a, t, nil
+				}
+			}
+		}
+	}
+	if e.Kind == EField && e.Args[0].Kind == EIdent && env.pkg != nil {
+		if _, isVar := env.vars[e.Args[0].Name]; !isVar && env.pkg.Scope().Lookup(e.Args[0].Name) == nil {
+			for _, imp := range env.pkg.Imports() {
+				if imp.Name() == e.Args[0].Name {
+					if obj := imp.Scope().Lookup(e.Op); obj != nil {
+						if a, t, ok := globalVar(obj); ok {
+							return a, t, nil
+						}
+					}
+				}
+			}
+		}
+	}
 	switch e.Kind {
 	case EField:
 		x, err := env.Eval(e.Args[0])
@@ -927,6 +956,39 @@ func (env *SpecEnv) call(e *Expr) (SpecVal, error) {
 			kt = env.litTerm(as[0].Lit, arrayKeySort(found[0].Sort))
 		}
 		return SpecVal{T: Select(found[0], kt)}, nil
+	case "yieldcount":
+		as, err := evalArgs()
+		if err != nil || len(as) != 1 || as[0].T.Sort != SFunc {
+			return SpecVal{}, fmt.Errorf("yieldcount(iterator): %v", err)
+		}
+		vc.DeclareFun("yieldcount", []Sort{SFunc}, SInt)
+		return SpecVal{T: App(SInt, "yieldcount", as[0].T)}, nil
+	case "yielded", "yielded2":
+		// yielded(it, j): the j-th element the iterator yields (first component for Seq2)
+		as, err := evalArgs()
+		if err != nil || len(as) != 2 || as[0].T.Sort != SFunc {
+			return SpecVal{}, fmt.Errorf("%s(iterator, j): %v", name, err)
+		}
+		sig, ok := as[0].Ty.Underlying().(*types.Signature)
+		if !ok || sig.Params().Len() != 1 {
+			return SpecVal{}, fmt.Errorf("%s: not an iterator", name)
+		}
+		ysig, ok := sig.Params().At(0).Type().Underlying().(*types.Signature)
+		idx := 0
+		if name == "yielded2" {
+			idx = 1
+		}
+		if !ok || ysig.Params().Len() <= idx {
+			return SpecVal{}, fmt.Errorf("%s: not an iterator", name)
+		}
+		et := ysig.Params().At(idx).Type()
+		srt, err := vc.tt.SortOf(et)
+		if err != nil {
+			return SpecVal{}, err
+		}
+		fn := fmt.Sprintf("yielded%d!%s", idx, sanitize(string(srt)))
+		vc.DeclareFun(fn, []Sort{SFunc, SInt}, srt)
+		return SpecVal{T: App(srt, fn, as[0].T, vc.toIndex(as[1].T, as[1].Ty)), Ty: et}, nil
 	case "istype", "cast":
 		// istype(x, T): the dynamic type of interface value x is T; cast(x, T): its value as T
 		if len(args) != 2 {
